@@ -1,8 +1,10 @@
 #!/bin/bash
 # runs every claimed check at the given tier against /repo, sequentially; prints one line per check
+# usage: tools/run_all.sh [quick|thorough] [per-check timeout in seconds]
 TIER=${1:-quick}
+CAP=${2:-7200}
 cd /verif
 for id in $(python3 -c "import json;print(' '.join(c['property_id'] for c in json.load(open('MANIFEST.json'))['checks']))"); do
-  s=$(date +%s); VERIF_PROGRESS=0 ./vv check $id --tier $TIER > /tmp/runall_$id.log 2>&1; rc=$?; e=$(date +%s)
-  echo "$id rc=$rc wall=$((e-s))s $(grep -c VIOLATION /tmp/runall_$id.log) violations"
+  s=$(date +%s); VERIF_PROGRESS=0 timeout $CAP ./vv check $id --tier $TIER > /tmp/runall_${TIER}_$id.log 2>&1; rc=$?; e=$(date +%s)
+  echo "$id tier=$TIER rc=$rc wall=$((e-s))s violations=$(grep -c VIOLATION /tmp/runall_${TIER}_$id.log) $(grep -oE 'obligations=[0-9]+ discharged=[0-9]+' /tmp/runall_${TIER}_$id.log | tail -1)"
 done
